@@ -688,6 +688,25 @@ class Interp:
                 isinstance(n, ast.FormattedValue) and n.format_spec is not None for n in node.values
             ):
                 yield st1, "".join(str(self.py_for_str(v)) for v in vs)
+            elif all(isinstance(v, (str, int, Fraction, bool, type(None))) for v in vs) and all(
+                not isinstance(n, ast.FormattedValue)
+                or n.format_spec is None
+                or (n.conversion == -1 and all(isinstance(c, ast.Constant) and isinstance(c.value, str) for c in n.format_spec.values))
+                for n in node.values
+            ):
+                # concrete values with literal format specs (f"{i:03d}"): format() of the concrete value
+                out = []
+                try:
+                    for n, v in zip(node.values, vs):
+                        if isinstance(n, ast.FormattedValue) and n.format_spec is not None:
+                            spec = "".join(c.value for c in n.format_spec.values)
+                            out.append(format(self.py_for_str(v), spec))
+                        else:
+                            out.append(str(self.py_for_str(v)))
+                except (ValueError, TypeError) as e:
+                    yield st1, Exc(ExcVal(BuiltinClass(type(e).__name__, type(e)), (str(e),)))
+                    continue
+                yield st1, "".join(out)
             else:
                 yield st1, Opaque("fstring")
 
